@@ -490,8 +490,30 @@ func init() {
 			return in.fmtInt(a[0], 64, true)
 		},
 		"github.com/creack/pty.Setsize": intrNoop,
-		"sort.Slice":                    intrSortSlice,
-		"sort.SliceStable":              intrSortSlice,
+		"unicode/utf8.DecodeRune": func(in *Interp, fn *ssa.Function, a []Value, _ ssa.CallInstruction) Value {
+			p := a[0].(Slice)
+			if len(p) == 0 {
+				return Tuple{uint64(utf8.RuneError), uint64(0)}
+			}
+			r, n := in.decodeRune(p, 0)
+			return Tuple{r, uint64(n)}
+		},
+		"unicode/utf8.DecodeRuneInString": func(in *Interp, fn *ssa.Function, a []Value, _ ssa.CallInstruction) Value {
+			p := strBytes(a[0])
+			if len(p) == 0 {
+				return Tuple{uint64(utf8.RuneError), uint64(0)}
+			}
+			r, n := in.decodeRune(p, 0)
+			return Tuple{r, uint64(n)}
+		},
+		"unicode/utf8.FullRune": func(in *Interp, fn *ssa.Function, a []Value, _ ssa.CallInstruction) Value {
+			return in.fullRune(a[0].(Slice))
+		},
+		"unicode/utf8.FullRuneInString": func(in *Interp, fn *ssa.Function, a []Value, _ ssa.CallInstruction) Value {
+			return in.fullRune(strBytes(a[0]))
+		},
+		"sort.Slice":       intrSortSlice,
+		"sort.SliceStable": intrSortSlice,
 
 		// ------------------------------------------------------------ math (concrete only)
 		"math.Float64bits": func(in *Interp, fn *ssa.Function, a []Value, _ ssa.CallInstruction) Value {
@@ -1069,4 +1091,60 @@ func (in *Interp) sprintf(format Value, args Slice) Value {
 		out = strConcat(out, "%!(EXTRA)")
 	}
 	return out
+}
+
+// fullRune mirrors unicode/utf8.FullRune: does p begin with a full encoding of a rune
+// (an invalid encoding counts as a full rune of width 1)?
+func (in *Interp) fullRune(p []Value) Value {
+	n := len(p)
+	if n == 0 {
+		return false
+	}
+	conc := true
+	buf := make([]byte, 0, 4)
+	for i := 0; i < n && i < 4; i++ {
+		c, ok := p[i].(uint64)
+		if !ok {
+			conc = false
+			break
+		}
+		buf = append(buf, byte(c))
+	}
+	if conc {
+		return utf8.FullRune(buf)
+	}
+	tt := in.tt
+	c8 := func(v uint64) *Term { return tt.Const(8, v) }
+	bt := func(k int) *Term { return in.toTerm(p[k], 8) }
+	between := func(t *Term, lo, hi *Term) *Term { return tt.And(tt.Cmp(OpULe, lo, t), tt.Cmp(OpULe, t, hi)) }
+	b0 := bt(0)
+	if in.decide(tt.Cmp(OpULt, b0, c8(0x80))) {
+		return true
+	}
+	if in.decide(tt.Or(tt.Cmp(OpULt, b0, c8(0xC2)), tt.Cmp(OpULt, c8(0xF4), b0))) {
+		return true
+	}
+	need := 4
+	if in.decide(tt.Cmp(OpULt, b0, c8(0xE0))) {
+		need = 2
+	} else if in.decide(tt.Cmp(OpULt, b0, c8(0xF0))) {
+		need = 3
+	}
+	if n >= need {
+		return true
+	}
+	// short: a bad continuation byte makes it an (invalid) full rune
+	if n > 1 {
+		lo := tt.Ite(tt.Cmp(OpEq, b0, c8(0xE0)), c8(0xA0), tt.Ite(tt.Cmp(OpEq, b0, c8(0xF0)), c8(0x90), c8(0x80)))
+		hi := tt.Ite(tt.Cmp(OpEq, b0, c8(0xED)), c8(0x9F), tt.Ite(tt.Cmp(OpEq, b0, c8(0xF4)), c8(0x8F), c8(0xBF)))
+		if !in.decide(between(bt(1), lo, hi)) {
+			return true
+		}
+	}
+	if n > 2 {
+		if !in.decide(between(bt(2), c8(0x80), c8(0xBF))) {
+			return true
+		}
+	}
+	return false
 }
